@@ -363,6 +363,12 @@ void encode_imm(struct instr *instrc) {
     // special condition for to mov instruction
   } else if (TYPE(instrc->key, DATA_TRANSFER))
     encode_imm_data_transfer(instrc);
+  // a negative immediate for a 32-bit register keeps its low 32 bits
+  if (((instrc->opd[0].reg & MODE_MASK) == reg32 ||
+       (instrc->opd[0].reg & MODE_MASK) == ext32) &&
+      !instrc->mem_disp && IN_RANGE(instrc->cons, NEG32BIT + 1, NEG64BIT)) {
+    DO_NOT_PAD(instrc->cons, instrc->reduced_imm, MAX_UNSIGNED_32BIT);
+  }
   // mask all bits except for the most significant byte
   if ((instrc->opd[0].reg & MODE_MASK) < reg32) {
     DO_NOT_PAD(instrc->cons, instrc->reduced_imm, MAX_UNSIGNED_16BIT);
